@@ -77,8 +77,9 @@ PROPS = {
         extra_modules=["CstModel.Proofs.Conc"],
         tags=["C06", "C05", "C08"],   # the slot / lock discipline the counter compensation relies on is evaluated on the same executions;
                                       # the teardown releases data and resolver on whichever thread drops last: only sound for thread-safe ones (marker probes)
-        runs=runs([("conc:lifecycle", "release"), ("conc:traverse", "release"), ("miri:all", "miri"), ("probe:c08", "rustc")],
-                  [("conc:lifecycle", "release"), ("conc:lifecycle", "debug"), ("conc:traverse", "release"), ("conc:data", "release"), ("miri:all", "miri"), ("probe:c08", "rustc")]),
+        runs=runs([("conc:lifecycle", "release"), ("conc:traverse", "release"), ("miri:all", "miri"), ("probe:c08", "rustc"), ("queries", "release"), ("red", "release")],
+                  [("conc:lifecycle", "release"), ("conc:lifecycle", "debug"), ("conc:traverse", "release"), ("conc:data", "release"), ("miri:all", "miri"), ("probe:c08", "rustc"),
+                   ("queries", "release"), ("red", "release"), ("replace", "release")]),
         rule="cases = executions under the deterministic scheduler of 8 fixed + 10 (thorough 60) random clone/drop/traverse/send programs over 1-3 threads (handles "
              "to inner nodes and tokens outliving the root handle, the last drop on any thread incl. the main thread first or last, creation races whose loser "
              "is discarded); all schedules with <= 1 (thorough 2) preemptions + random schedules; instrumentation oracle per execution: every NodeData block and "
@@ -86,7 +87,9 @@ PROPS = {
              "before; the event trace with the counter value after every RMW and the number of blocks freed by the teardown is replayed through the Lean model, "
              "which must accept every event (a teardown event is only enabled when no handle is owned or owed); the sequence of decrements and frees of every teardown must be the one "
              "`Teardown.tearRoot` computes for the tree of installed elements (children before parents, left to right, two decrements per node, one per token, the root block "
-             "and the count cell last); + the marker probes of C08 (the last handle may be dropped on any thread: data and resolver must be thread-safe); + the 7 free-running Miri programs of C07 on the un-hooked "
+             "and the count cell last); + the sequential navigation / query / replace runs of C02, C13, C14 through the plain and the resolved API with the handle-count oracle "
+             "(after every operation the tree's counter equals the number of handles that exist: what an operation hands out and drops again was counted up and down); "
+             "+ the marker probes of C08 (the last handle may be dropped on any thread: data and resolver must be thread-safe); + the 7 free-running Miri programs of C07 on the un-hooked "
              "crate (use-after-free, double free, leaks and races with the teardown under the language memory model; 4 (thorough 32) schedules each); "
              "non-trivial = the scheduler had a real choice",
         assumptions=["the green tree, resolver and per-node data are owned by red blocks (plain Rust ownership): their release is implied by the block being dropped exactly once",
@@ -118,12 +121,14 @@ PROPS = {
         not_yet_proved=[],
     ),
     "C08": dict(
-        runs=runs([("probe:c08", "rustc")], [("probe:c08", "rustc")]),
+        runs=runs([("probe:c08", "rustc"), ("miri:all", "miri")], [("probe:c08", "rustc"), ("miri:all", "miri")]),
         rule="cases = one rustc probe each (all in one crate compiled once against the current source; diagnostics mapped back by line): every handle type "
              "(node, token, element, resolved node/token/element, element ref) x {Send, Sync} x 8 (thorough 12) data types (thread-safe ones, Rc, Cell, RefCell, raw "
              "pointer holder, Send-only, Sync-only); generic functions over an unconstrained / Send-only / Sync-only / Send+Sync data parameter asserting Send and Sync "
              "(decides all instantiations inside the type checker); trees constructed with thread-safe and non-thread-safe resolvers and then moved / shared; green "
-             "node/token/element; distinct = distinct probe",
+             "node/token/element; the kind type (generic and without auto traits); lazy text views over every resolver; + the free-running Miri programs (the markers of the green "
+             "elements are unconditional `unsafe impl`s: two threads clone / drop the same green nodes and tokens, directly and through `replace_with`, under the language "
+             "memory model); distinct = distinct probe",
         assumptions=["rustc's trait solver is the implementation here; the model covers exactly the extracted `unsafe impl` bounds and constructor bounds (and that no other unsafe marker impl exists in the syntax module)"],
         not_yet_proved=[],
     ),
